@@ -76,7 +76,8 @@ FieldMon(f) == [name |-> f.name, len |-> f.len, uniform |-> f.uniform, strict |-
 NewMon(fields) == [n |-> 0, fs |-> [i \in DOMAIN fields |-> FieldMon(fields[i])]]
 
 \* a uniform field has its declared length; a variable-length field is never uniform
-WellFormedFields(fields) == \A i \in DOMAIN fields : fields[i].uniform => fields[i].len > 0
+MaxUniformLen == 64      \* bound used by EndVerdict's enumeration of byte positions
+WellFormedFields(fields) == \A i \in DOMAIN fields : fields[i].uniform => fields[i].len \in 1..MaxUniformLen
 LayoutOK(m, values) ==
   /\ Len(values) = Len(m.fs)
   /\ \A i \in DOMAIN m.fs : m.fs[i].len > 0 => Len(values[i]) = m.fs[i].len
@@ -124,9 +125,9 @@ RepeatVerdict(m) ==
            \o " after " \o ToString(m.n) \o " calls">>
 
 EndVerdict(m) ==
-  LET stuck == {<<i, p, j>> \in (DOMAIN m.fs) \X (1..64) \X (0..7) :
+  LET stuck == {<<i, p, j>> \in (DOMAIN m.fs) \X (1..MaxUniformLen) \X (0..7) :
                   m.fs[i].uniform /\ p <= m.fs[i].len /\ ~BitToggles(m.fs[i], p, j)}
-      thin  == {<<i, p>> \in (DOMAIN m.fs) \X (1..64) :
+      thin  == {<<i, p>> \in (DOMAIN m.fs) \X (1..MaxUniformLen) :
                   m.fs[i].uniform /\ p <= m.fs[i].len /\ Cardinality(m.fs[i].vals[p]) < MinDistinct(m.n)}
   IN IF ~Judgeable(m) THEN <<"coverage: too few calls for the uniformity monitors", ToString(m.n)>>
      ELSE IF stuck # {} THEN
@@ -141,5 +142,4 @@ EndVerdict(m) ==
            \o ToString(m.n) \o " calls, a uniform source shows >= " \o ToString(MinDistinct(m.n))>>
      ELSE <<>>
 
-MaxUniformLen == 64      \* bound used by EndVerdict's enumeration
 ================================================================================
